@@ -454,8 +454,15 @@ def r09_4(ctx, run, rule, roots):
                 bad.append((p, name, t))
         b = ctx.facts.bodies[p]
         for bb, i, s in b.all_stmts():
-            pass
-    if bad:
+            # a hand-written parser of the grammar that builds nom::Err::Incomplete itself is a streaming parser too (who-may-construct:
+            # nobody; the entry points' Incomplete arms are unreachable!())
+            if s['k'] == 'assign' and s['rv']['k'] == 'agg' and s['rv'].get('agg') == 'adt' and s['rv'].get('vname') == 'Incomplete' \
+                    and 'nom' in s['rv'].get('adt', '') and s['rv']['adt'].split('::')[-1] == 'Err':
+                bad.append((p, 'nom::Err::Incomplete built by hand', {'file': s.get('file'), 'line': s.get('line')}))
+    if bad and bad[0][1].endswith('by hand'):
+        p, name, t = bad[0]
+        run.violation(rule, p, 'streaming-combinator', 'this grammar function returns nom::Err::Incomplete itself; alt / delimited / separated_list pass it through to the entry point, which treats it as unreachable!()', f"{t.get('file')}:{t.get('line')}")
+    elif bad:
         p, name, t = bad[0]
         run.violation(rule, p, 'streaming-combinator', f'`{name}` is a streaming combinator: it reports Incomplete, which the entry point treats as unreachable!()', f"{t.get('file')}:{t.get('line')}")
     else:
@@ -968,6 +975,8 @@ def r09_11(ctx, run, rule='R09.11'):
                 # is the operand known to be a BinaryOp, and what is known about its operator?
                 is_bin = None
                 op_tests = {}
+                same_op = None
+                parent_cmp = set()
                 for c in conds:
                     t = c[0]
                     if t[0] == 'discr' and any(s[0] == 'field' and s[2] == side and s[1][0] == 'downcast' and s[1][2] == 'BinaryOp' for s in subterms(t)):
@@ -991,7 +1000,23 @@ def r09_11(ctx, run, rule='R09.11'):
                         inner_side = any(s[0] == 'field' and s[2] == side for s in subterms(t[2][0]))
                         if inner_side and agg_variant(k) and k[1][1].endswith('BinaryOperator'):
                             op_tests[k[1][2]] = c[2]
+                    # the child's operator compared with the parent's own operator (`left_op != op`)
+                    if t[0] == 'call' and (canon(t[1]).endswith('PartialEq::ne') or canon(t[1]).endswith('PartialEq::eq')) and len(t[2]) == 2 and isinstance(c[2], bool):
+                        def _opfield(a_):
+                            x_ = deref_all(a_)
+                            if x_[0] != 'field' or x_[2] != 'op':
+                                return None
+                            sides = {s_[2] for s_ in subterms(x_) if s_[0] == 'field' and s_[1][0] == 'downcast' and s_[1][2] == 'BinaryOp' and s_[2] in ('left', 'right')}
+                            return 'child' if sides == {side} else ('parent' if not sides else None)
+                        if {_opfield(t[2][0]), _opfield(t[2][1])} == {'child', 'parent'}:
+                            same_op = c[2] if canon(t[1]).endswith('PartialEq::eq') else (not c[2])
+                            parent_cmp.add(id(c))
                 n += 1
+                if not paren and same_op is True and is_bin is not False and not (op_tests.get('And') is False and op_tests.get('Or') is False):
+                    if side == 'right':
+                        bad.append('the right operand is printed without parentheses when its operator equals the parent\'s operator')
+                    # a same-operator group on the left is what the left-deep grammar builds itself: printing it bare keeps the structure
+                    continue
                 may_be_connective = is_bin is not False and not (op_tests.get('And') is False and op_tests.get('Or') is False)
                 known_connective = is_bin is True and (op_tests.get('And') is True or op_tests.get('Or') is True)
                 if not paren and may_be_connective:
